@@ -15,7 +15,7 @@ use simcore::dna;
 use simcore::driver::{guarded, Harness, Tier};
 use simcore::model::kmer_bases;
 use simcore::monitor::{node_kmers_model, Mon};
-use simcore::pipe::base_graph_for;
+use simcore::pipe::base_graph_with_provenance;
 use simcore::rec::{Rec, Violation};
 use simcore::rng::Rng;
 use std::collections::BTreeSet;
@@ -38,8 +38,8 @@ pub enum Op {
 
 pub use simcore::spec::{gen_graph_spec, shrink_graph_spec, GraphSpec};
 
-fn build<K: Kmer>(g: &GraphSpec) -> DebruijnGraph<K, u16> {
-    base_graph_for::<K>(g).finish_serial()
+fn build<K: Kmer + serde::Serialize + serde::de::DeserializeOwned>(g: &GraphSpec) -> DebruijnGraph<K, u16> {
+    base_graph_with_provenance::<K>(g).finish_serial()
 }
 
 // ------------------------------------------------------------------------------------
@@ -138,7 +138,7 @@ fn open_slot<'g, K: Kmer + Send + Sync>(
     })
 }
 
-fn run_consumer<K: Kmer + Send + Sync>(c: &ConsumerCase, rec: &mut Rec) -> Result<(), Violation> {
+fn run_consumer<K: Kmer + Send + Sync + serde::Serialize + serde::de::DeserializeOwned>(c: &ConsumerCase, rec: &mut Rec) -> Result<(), Violation> {
     if c.prior_graph {
         let mut spec = c.graph.clone();
         for r in spec.reads.iter_mut() {
@@ -432,7 +432,7 @@ pub struct MphfCase {
     pub gamma_milli: u32,
 }
 
-fn run_mphf_serial<K: Kmer + Send + Sync>(c: &MphfCase, rec: &mut Rec) -> Result<(), Violation> {
+fn run_mphf_serial<K: Kmer + Send + Sync + serde::Serialize + serde::de::DeserializeOwned>(c: &MphfCase, rec: &mut Rec) -> Result<(), Violation> {
     let g = build::<K>(&c.graph);
     let gamma = c.gamma_milli as f64 / 1000.0;
     rec.choice("gamma_milli", c.gamma_milli as u64, c.gamma_milli == 1700);
